@@ -663,6 +663,7 @@ func runC20(c *Ctx) {
 	c.Res.Rule = "transforming wrappers: mangler list of 0-5 library manglers (alias, flatten, tag reformat between 5 casings, tag copy, string-cast only after flatten and text-unmarshaler, set->slice, text-unmarshaler; 35% plus a harness gate mangler that can fail in Mangle/Unmangle; a single reformat goes through tagformat.ReformatDialsTagSource), " +
 		"inner source static / watching with 1-6 calls (blocking and non-blocking reports, ReportError, final Done; some values invalid for Verify, some refused by the gate) / failing in Value / failing in Watch, logical values over 15 leaves (each set with p=0.65) of a nested config type with aliases, a set, slices, a duration and TextUnmarshaler leaves; " +
 		"a stream of configs with []struct, []*struct and map[string]struct fields behind five wrappers next to the same watching source used natively (initial value and 1-5 blocking updates; each collection unset / explicitly empty / 1-4 entries; non-empty defaults); " +
+		"one transforming-decoder instance asked for two different config types in turn (and again), against fresh instances; " +
 		"transforming decoders through static.StringSource and the JSON decoder; Blank: 1-14 operations (SetSource of static/watching/Value-failing/Watch-failing/invalid/nil sources, Done, Value, second Watch, some before Config) on a real Blank inside dials.Config next to a keep-alive watcher. " +
 		"Blank.SetSource cancelled between the submission of its value and the monitor's answer (window held open by a gated Verify), followed by a healthy SetSource and another watcher's blocking report. " +
 		"A case is non-trivial if its mangler list is non-empty or its inner source is a watcher with at least one report (wrappers), or it has a SetSource and at least one Done or Value (Blank); distinct = distinct canonical case text."
@@ -671,6 +672,9 @@ func runC20(c *Ctx) {
 	nB := c.scale(3000, 40000)
 	c20BlankEager(c, c.RNG.Fork(), c.scale(30, 600)) // cheap, and first: a search with a time budget must reach it
 	c20BlankCancel(c, c.RNG.Fork(), c.scale(40, 800))
+	for i := c.scale(60, 1000); i > 0; i-- {
+		c20SharedDecoder(c, c.RNG.Fork())
+	}
 	for i := c.scale(300, 5000); i > 0; i-- {
 		c20StructSlices(c, c.RNG.Fork())
 	}
